@@ -232,6 +232,11 @@ class JSONSerializer(AbstractIncrementalPacketSerializer[Any, Any]):
                     },
                 ) from exc
             raise DeserializeError(msg) from exc
+        except RecursionError as exc:
+            msg = "JSON decode error: maximum nesting depth exceeded"
+            if self.debug:
+                raise DeserializeError(msg, error_info={"document": document}) from exc
+            raise DeserializeError(msg) from exc
         return packet
 
     @final
@@ -298,6 +303,11 @@ class JSONSerializer(AbstractIncrementalPacketSerializer[Any, Any]):
                         "colno": exc.colno,
                     },
                 ) from exc
+            raise IncrementalDeserializeError(msg, remaining_data) from exc
+        except RecursionError as exc:
+            msg = "JSON decode error: maximum nesting depth exceeded"
+            if self.debug:
+                raise IncrementalDeserializeError(msg, remaining_data=remaining_data, error_info={"document": document}) from exc
             raise IncrementalDeserializeError(msg, remaining_data) from exc
         return packet, remaining_data
 
